@@ -6,16 +6,18 @@ package main
 // file, with the lock state of `ps.mu` that syntactically DOMINATES it:
 //   wlock / rlock   after ps.mu.Lock() / ps.mu.RLock() (a deferred Unlock holds to the end)
 //   unlocked        exported entry points start here; after Unlock()/RUnlock()
-//   caller          lowercase helpers inherit their caller's state (resolved in Lean
-//                   through the call rows)
+//   (unexported helpers — complete(), busy(), addPeer, pieceChunks, setState, del … — are
+//   SPLICED into their callers: their accesses and Lock/Unlock events are walked in place of
+//   the call, with the lock state carried in and out, recursively (depth limit, recursion ⇒
+//   unknown).  Rows never name a helper, so extract-method / inline-method refactorings inside
+//   the package leave the table unchanged.  Exported callees are `call` rows.)
 //   unknown         anything the walker cannot follow (branches that disagree, closures):
 //                   fail-closed, Props/C01 rejects it
 // `via` = plain | atomic (through sync/atomic or mono.{Load,Store}Atomic on &field) | call.
-// `hold` numbers the lock acquisitions of the function in source order (0 = state on
-// entry), so that "the test and the access happen under the same hold" is checkable.
+// `hold` numbers the lock acquisitions of the entry point in the order the walk meets them
+// (0 = state on entry), so that "the test and the access happen under the same hold" is
+// checkable.
 // The rows are a sorted set: no line numbers, no multiplicities, no source order.
-// A function whose doc comment says "Called locked" starts in wlock; it is listed in
-// `lockAssumed` and Props/C01 checks every call of it is made under wlock.
 
 import (
 	"fmt"
@@ -45,19 +47,32 @@ type ltState struct {
 	hold int
 }
 
-type ltWalker struct {
-	fn       string
-	rows     map[ltRow]bool
-	funcs    map[string]bool // "Pieces.AddData", "Piece.complete", …
-	lockSite map[token.Pos]int
+type ltFrame struct {
+	exits       []ltState // lock state at every return of the spliced callee
+	deferUnlock bool      // the callee registered `defer ps.mu.Unlock()`
 }
 
-func (w *ltWalker) add(field, rw, via string, st ltState) {
-	h := st.hold
-	if st.lock == "unlocked" || st.lock == "unknown" {
+type ltWalker struct {
+	fn     string // the exported entry point being described (rows never name a helper)
+	st     ltState
+	rows   map[ltRow]bool
+	funcs  map[string]*ast.FuncDecl // "Pieces.AddData", "Piece.complete", …
+	holds  map[string]int           // lock site (call path + position) -> hold number
+	path   []string                 // call path of the splice (for the hold key and recursion)
+	frames []*ltFrame
+}
+
+func (w *ltWalker) add(field, rw, via string) {
+	h := w.st.hold
+	if w.st.lock == "unlocked" || w.st.lock == "unknown" {
 		h = 0
 	}
-	w.rows[ltRow{w.fn, field, rw, via, st.lock, h}] = true
+	w.rows[ltRow{w.fn, field, rw, via, w.st.lock, h}] = true
+}
+
+func (w *ltWalker) unknown(what string) {
+	w.rows[ltRow{w.fn, what, "r", "plain", "unknown", 0}] = true
+	w.st = ltState{"unknown", 0}
 }
 
 // trackedField: is e `X.f` with f a tracked field?  (Pieces fields only on the receiver
@@ -104,14 +119,64 @@ func (w *ltWalker) callee(s *ast.SelectorExpr) string {
 	if id, ok := s.X.(*ast.Ident); ok && id.Name == "ps" {
 		recv = "Pieces."
 	}
-	if w.funcs[recv+s.Sel.Name] {
+	if w.funcs[recv+s.Sel.Name] != nil {
 		return recv + s.Sel.Name
 	}
 	return ""
 }
 
-// baseOf strips index / slice / paren / star / conversion-free wrappers: the expression
-// whose storage is touched by `copy(dst, …)` or an assignment to `dst[i]`
+func ltExported(name string) bool {
+	i := strings.LastIndex(name, ".")
+	return unicode.IsUpper([]rune(name[i+1:])[0])
+}
+
+// holdOf numbers the lock acquisitions of the entry point in the order the walk first
+// meets them; the key is the splice path + the position, so the same helper spliced at
+// two call sites yields two holds, and moving code into / out of a helper keeps the numbers
+func (w *ltWalker) holdOf(pos token.Pos) int {
+	k := strings.Join(w.path, ">") + fmt.Sprint("@", pos)
+	if h, ok := w.holds[k]; ok {
+		return h
+	}
+	h := len(w.holds) + 1
+	w.holds[k] = h
+	return h
+}
+
+// splice walks the body of an unexported callee in place of the call: its accesses and its
+// Lock/Unlock events become the caller's, the lock state is carried in and out.
+func (w *ltWalker) splice(name string, at token.Pos) {
+	for _, p := range w.path {
+		if strings.HasPrefix(p, name+"@") { // recursion: fail closed
+			w.unknown("?recursion")
+			return
+		}
+	}
+	if len(w.path) >= 6 {
+		w.unknown("?depth")
+		return
+	}
+	fd := w.funcs[name]
+	w.path = append(w.path, fmt.Sprint(name, "@", at))
+	fr := &ltFrame{}
+	w.frames = append(w.frames, fr)
+	if term := w.stmts(fd.Body.List); !term {
+		fr.exits = append(fr.exits, w.st)
+	}
+	w.frames = w.frames[:len(w.frames)-1]
+	w.path = w.path[:len(w.path)-1]
+	out := fr.exits[0]
+	for _, e := range fr.exits[1:] {
+		out = merge(out, e)
+	}
+	if fr.deferUnlock && out.lock != "unknown" {
+		out = ltState{"unlocked", 0}
+	}
+	w.st = out
+}
+
+// baseOf strips index / slice / paren / star wrappers: the expression whose storage is
+// touched by `copy(dst, …)` or an assignment to `dst[i]`
 func baseOf(e ast.Expr) ast.Expr {
 	for {
 		switch x := e.(type) {
@@ -129,7 +194,7 @@ func baseOf(e ast.Expr) ast.Expr {
 	}
 }
 
-func (w *ltWalker) expr(e ast.Expr, st ltState) {
+func (w *ltWalker) expr(e ast.Expr) {
 	switch x := e.(type) {
 	case nil:
 	case *ast.CallExpr:
@@ -142,24 +207,24 @@ func (w *ltWalker) expr(e ast.Expr, st ltState) {
 			for i, a := range x.Args {
 				if u, ok := a.(*ast.UnaryExpr); ok && i == 0 && u.Op == token.AND {
 					if f, in, ok := trackedField(u.X); ok {
-						w.add(f, rw, "atomic", st)
-						w.expr(in, st)
+						w.add(f, rw, "atomic")
+						w.expr(in)
 						continue
 					}
 				}
-				w.expr(a, st)
+				w.expr(a)
 			}
 			return
 		}
 		if name == "copy" && len(x.Args) == 2 {
 			if f, in, ok := trackedField(baseOf(x.Args[0])); ok {
-				w.add(f, "w", "plain", st)
-				w.expr(in, st)
-				w.indices(x.Args[0], st)
+				w.add(f, "w", "plain")
+				w.expr(in)
+				w.indices(x.Args[0])
 			} else {
-				w.expr(x.Args[0], st)
+				w.expr(x.Args[0])
 			}
-			w.expr(x.Args[1], st)
+			w.expr(x.Args[1])
 			return
 		}
 		if s, ok := x.Fun.(*ast.SelectorExpr); ok {
@@ -168,98 +233,116 @@ func (w *ltWalker) expr(e ast.Expr, st ltState) {
 				if ltMutators[s.Sel.Name] {
 					rw = "w"
 				}
-				w.add(f, rw, "plain", st)
-				w.expr(in, st)
+				w.add(f, rw, "plain")
+				w.expr(in)
+				for _, a := range x.Args {
+					w.expr(a)
+				}
 			} else if c := w.callee(s); c != "" {
-				w.add(c, "r", "call", st)
-				w.expr(s.X, st)
+				w.expr(s.X)
+				for _, a := range x.Args {
+					w.expr(a)
+				}
+				if ltExported(c) {
+					w.add(c, "r", "call") // analysed on its own, from `unlocked`
+				} else {
+					w.splice(c, x.Pos())
+				}
 			} else {
-				w.expr(s.X, st)
+				w.expr(s.X)
+				for _, a := range x.Args {
+					w.expr(a)
+				}
 			}
-		} else {
-			w.expr(x.Fun, st)
+			return
 		}
+		w.expr(x.Fun)
 		for _, a := range x.Args {
-			w.expr(a, st)
+			w.expr(a)
 		}
 	case *ast.SelectorExpr:
 		if f, in, ok := trackedField(x); ok {
-			w.add(f, "r", "plain", st)
-			w.expr(in, st)
+			w.add(f, "r", "plain")
+			w.expr(in)
 			return
 		}
-		w.expr(x.X, st)
+		w.expr(x.X)
 	case *ast.UnaryExpr:
 		if x.Op == token.AND {
 			if f, in, ok := trackedField(x.X); ok { // address escapes: treat as a plain write
-				w.add(f, "w", "plain", st)
-				w.expr(in, st)
+				w.add(f, "w", "plain")
+				w.expr(in)
 				return
 			}
 		}
-		w.expr(x.X, st)
+		w.expr(x.X)
 	case *ast.BinaryExpr:
-		w.expr(x.X, st)
-		w.expr(x.Y, st)
+		w.expr(x.X)
+		w.expr(x.Y)
 	case *ast.ParenExpr:
-		w.expr(x.X, st)
+		w.expr(x.X)
 	case *ast.StarExpr:
-		w.expr(x.X, st)
+		w.expr(x.X)
 	case *ast.IndexExpr:
-		w.expr(x.X, st)
-		w.expr(x.Index, st)
+		w.expr(x.X)
+		w.expr(x.Index)
 	case *ast.SliceExpr:
-		w.expr(x.X, st)
-		w.expr(x.Low, st)
-		w.expr(x.High, st)
-		w.expr(x.Max, st)
+		w.expr(x.X)
+		w.expr(x.Low)
+		w.expr(x.High)
+		w.expr(x.Max)
 	case *ast.TypeAssertExpr:
-		w.expr(x.X, st)
+		w.expr(x.X)
 	case *ast.KeyValueExpr:
-		w.expr(x.Value, st)
+		w.expr(x.Value)
 	case *ast.CompositeLit:
 		for _, el := range x.Elts {
-			w.expr(el, st)
+			w.expr(el)
 		}
 	case *ast.FuncLit: // runs later, under whatever lock then holds
-		w.stmts(x.Body.List, ltState{"unknown", 0})
+		save := w.st
+		w.st = ltState{"unknown", 0}
+		w.frames = append(w.frames, &ltFrame{})
+		w.stmts(x.Body.List)
+		w.frames = w.frames[:len(w.frames)-1]
+		w.st = save
 	case *ast.Ident, *ast.BasicLit, *ast.ArrayType, *ast.MapType, *ast.ChanType, *ast.FuncType,
 		*ast.InterfaceType, *ast.StructType, *ast.Ellipsis:
 	default:
-		w.add("?expr", "r", "plain", ltState{"unknown", 0})
+		w.rows[ltRow{w.fn, "?expr", "r", "plain", "unknown", 0}] = true
 	}
 }
 
 // indices walks only the index / bound sub-expressions of an l-value chain
-func (w *ltWalker) indices(e ast.Expr, st ltState) {
+func (w *ltWalker) indices(e ast.Expr) {
 	switch x := e.(type) {
 	case *ast.IndexExpr:
-		w.expr(x.Index, st)
-		w.indices(x.X, st)
+		w.expr(x.Index)
+		w.indices(x.X)
 	case *ast.SliceExpr:
-		w.expr(x.Low, st)
-		w.expr(x.High, st)
-		w.expr(x.Max, st)
-		w.indices(x.X, st)
+		w.expr(x.Low)
+		w.expr(x.High)
+		w.expr(x.Max)
+		w.indices(x.X)
 	case *ast.ParenExpr:
-		w.indices(x.X, st)
+		w.indices(x.X)
 	case *ast.StarExpr:
-		w.indices(x.X, st)
+		w.indices(x.X)
 	}
 }
 
 // lvalue: a write to a tracked field (directly, or to an element of it)
-func (w *ltWalker) lvalue(e ast.Expr, st ltState) {
+func (w *ltWalker) lvalue(e ast.Expr) {
 	if f, in, ok := trackedField(baseOf(e)); ok {
-		w.add(f, "w", "plain", st)
-		w.expr(in, st)
-		w.indices(e, st)
+		w.add(f, "w", "plain")
+		w.expr(in)
+		w.indices(e)
 		return
 	}
 	if _, ok := e.(*ast.Ident); ok {
 		return
 	}
-	w.expr(e, st)
+	w.expr(e)
 }
 
 func merge(a, b ltState) ltState {
@@ -283,146 +366,167 @@ func isPanic(s ast.Stmt) bool {
 	return false
 }
 
-// stmts returns the state after the list and whether control cannot fall out of it
-func (w *ltWalker) stmts(list []ast.Stmt, st ltState) (ltState, bool) {
+// stmts walks a list; true if control cannot fall out of it
+func (w *ltWalker) stmts(list []ast.Stmt) bool {
 	for _, s := range list {
-		var term bool
-		st, term = w.stmt(s, st)
-		if term {
-			return st, true
+		if w.stmt(s) {
+			return true
 		}
 	}
-	return st, false
+	return false
 }
 
-func (w *ltWalker) stmt(s ast.Stmt, st ltState) (ltState, bool) {
+func (w *ltWalker) stmt(s ast.Stmt) bool {
 	switch x := s.(type) {
 	case *ast.ExprStmt:
 		if c, ok := x.X.(*ast.CallExpr); ok {
 			switch muCall(c) {
 			case "Lock":
-				return ltState{"wlock", w.lockSite[c.Pos()]}, false
+				w.st = ltState{"wlock", w.holdOf(c.Pos())}
+				return false
 			case "RLock":
-				return ltState{"rlock", w.lockSite[c.Pos()]}, false
+				w.st = ltState{"rlock", w.holdOf(c.Pos())}
+				return false
 			case "Unlock", "RUnlock":
-				return ltState{"unlocked", 0}, false
+				w.st = ltState{"unlocked", 0}
+				return false
 			}
 		}
-		w.expr(x.X, st)
-		return st, isPanic(s)
+		w.expr(x.X)
+		return isPanic(s)
 	case *ast.DeferStmt:
 		if m := muCall(x.Call); m == "Unlock" || m == "RUnlock" {
-			return st, false // released on return: the hold lasts to the end
+			// released on return: the hold lasts to the end of this function
+			w.frames[len(w.frames)-1].deferUnlock = true
+			return false
 		}
-		w.expr(x.Call, ltState{"unknown", 0})
-		return st, false
+		save := w.st
+		w.st = ltState{"unknown", 0}
+		w.expr(x.Call)
+		w.st = save
+		return false
 	case *ast.AssignStmt:
 		for _, r := range x.Rhs {
 			// `p := ps.pieces[index]` copies a whole Piece
 			if f, _, ok := trackedField(baseOf(r)); ok && f == "pieces" {
 				if _, isIdx := r.(*ast.IndexExpr); isIdx {
-					w.add("*", "r", "plain", st)
+					w.add("*", "r", "plain")
 				}
 			}
-			w.expr(r, st)
+			w.expr(r)
 		}
 		for _, l := range x.Lhs {
-			w.lvalue(l, st)
+			w.lvalue(l)
 		}
-		return st, false
+		return false
 	case *ast.IncDecStmt:
-		w.lvalue(x.X, st)
-		return st, false
+		w.lvalue(x.X)
+		return false
 	case *ast.DeclStmt:
 		if gd, ok := x.Decl.(*ast.GenDecl); ok {
 			for _, sp := range gd.Specs {
 				if vs, ok := sp.(*ast.ValueSpec); ok {
 					for _, v := range vs.Values {
-						w.expr(v, st)
+						w.expr(v)
 					}
 				}
 			}
 		}
-		return st, false
+		return false
 	case *ast.ReturnStmt:
 		for _, r := range x.Results {
-			w.expr(r, st)
+			w.expr(r)
 		}
-		return st, true
+		fr := w.frames[len(w.frames)-1]
+		fr.exits = append(fr.exits, w.st)
+		return true
 	case *ast.BranchStmt:
-		return st, true
+		return true
 	case *ast.BlockStmt:
-		return w.stmts(x.List, st)
+		return w.stmts(x.List)
 	case *ast.IfStmt:
 		if x.Init != nil {
-			st, _ = w.stmt(x.Init, st)
+			w.stmt(x.Init)
 		}
-		w.expr(x.Cond, st)
-		s1, t1 := w.stmts(x.Body.List, st)
-		s2, t2 := st, false
+		w.expr(x.Cond)
+		st := w.st
+		t1 := w.stmts(x.Body.List)
+		s1 := w.st
+		w.st = st
+		t2 := false
 		if x.Else != nil {
-			s2, t2 = w.stmt(x.Else, st)
+			t2 = w.stmt(x.Else)
 		}
+		s2 := w.st
 		switch {
 		case t1 && t2:
-			return st, true
+			w.st = st
+			return true
 		case t1:
-			return s2, false
+			w.st = s2
 		case t2:
-			return s1, false
+			w.st = s1
+		default:
+			w.st = merge(s1, s2)
 		}
-		return merge(s1, s2), false
+		return false
 	case *ast.ForStmt:
 		if x.Init != nil {
-			st, _ = w.stmt(x.Init, st)
+			w.stmt(x.Init)
 		}
-		w.expr(x.Cond, st)
-		sb, tb := w.stmts(x.Body.List, st)
-		if tb {
-			return st, false
+		w.expr(x.Cond)
+		st := w.st // state when the condition has been evaluated the first time
+		if w.stmts(x.Body.List) {
+			w.st = st
+			return false
 		}
 		if x.Post != nil {
-			sb, _ = w.stmt(x.Post, sb)
+			w.stmt(x.Post)
 		}
-		if sb != st { // the condition is evaluated again in the state the body ends in
-			w.expr(x.Cond, sb)
+		if w.st != st { // the condition is evaluated again in the state the body ends in
+			w.expr(x.Cond)
 		}
-		return merge(st, sb), false
+		w.st = merge(st, w.st)
+		return false
 	case *ast.RangeStmt:
-		w.expr(x.X, st)
-		sb, tb := w.stmts(x.Body.List, st)
-		if tb {
-			return st, false
+		w.expr(x.X)
+		st := w.st
+		if w.stmts(x.Body.List) {
+			w.st = st
+			return false
 		}
-		return merge(st, sb), false
+		w.st = merge(st, w.st)
+		return false
 	case *ast.SwitchStmt:
 		if x.Init != nil {
-			st, _ = w.stmt(x.Init, st)
+			w.stmt(x.Init)
 		}
-		w.expr(x.Tag, st)
+		w.expr(x.Tag)
+		st := w.st
 		out := st
 		for _, c := range x.Body.List {
 			cc := c.(*ast.CaseClause)
+			w.st = st
 			for _, e := range cc.List {
-				w.expr(e, st)
+				w.expr(e)
 			}
-			sc, tc := w.stmts(cc.Body, st)
-			if !tc {
-				out = merge(out, sc)
+			if !w.stmts(cc.Body) {
+				out = merge(out, w.st)
 			}
 		}
-		return out, false
+		w.st = out
+		return false
 	case *ast.EmptyStmt:
-		return st, false
+		return false
 	}
-	w.add("?stmt", "r", "plain", ltState{"unknown", 0})
-	return ltState{"unknown", 0}, false
+	w.unknown("?stmt")
+	return false
 }
 
 func genLockTable() {
 	f := parse("tor/piece/piece.go")
-	funcs := map[string]bool{}
-	var decls []*ast.FuncDecl
+	funcs := map[string]*ast.FuncDecl{}
+	var names []string
 	name := func(fd *ast.FuncDecl) string {
 		if fd.Recv == nil || len(fd.Recv.List) == 0 {
 			return fd.Name.Name
@@ -435,37 +539,45 @@ func genLockTable() {
 	}
 	for _, d := range f.Decls {
 		if fd, ok := d.(*ast.FuncDecl); ok && fd.Body != nil {
-			funcs[name(fd)] = true
-			decls = append(decls, fd)
+			funcs[name(fd)] = fd
+			names = append(names, name(fd))
 		}
 	}
-	rows := map[ltRow]bool{}
-	var assumed, fnames []string
-	for _, fd := range decls {
-		w := &ltWalker{fn: name(fd), rows: rows, funcs: funcs, lockSite: map[token.Pos]int{}}
-		fnames = append(fnames, w.fn)
-		n := 0
-		ast.Inspect(fd.Body, func(nd ast.Node) bool {
-			if _, ok := nd.(*ast.DeferStmt); ok {
-				return false
-			}
+	sort.Strings(names)
+	// unexported functions reachable from an exported one are spliced into their callers
+	// and get no rows of their own; an unexported function nobody in the file calls is
+	// walked on its own from `unknown` (fail-closed)
+	called := map[string]bool{}
+	for _, n := range names {
+		ast.Inspect(funcs[n].Body, func(nd ast.Node) bool {
 			if c, ok := nd.(*ast.CallExpr); ok {
-				if m := muCall(c); m == "Lock" || m == "RLock" {
-					n++
-					w.lockSite[c.Pos()] = n
+				if s, ok := c.Fun.(*ast.SelectorExpr); ok {
+					for _, r := range []string{"Piece.", "Pieces."} {
+						if funcs[r+s.Sel.Name] != nil {
+							called[r+s.Sel.Name] = true
+						}
+					}
 				}
 			}
 			return true
 		})
-		entry := ltState{"caller", 0}
-		switch {
-		case fd.Doc != nil && strings.Contains(strings.ToLower(fd.Doc.Text()), "called locked"):
-			entry = ltState{"wlock", 0}
-			assumed = append(assumed, w.fn)
-		case unicode.IsUpper([]rune(fd.Name.Name)[0]):
-			entry = ltState{"unlocked", 0}
+	}
+	rows := map[ltRow]bool{}
+	var entries []string
+	for _, n := range names {
+		exported := ltExported(n)
+		if !exported && called[n] {
+			continue
 		}
-		w.stmts(fd.Body.List, entry)
+		entries = append(entries, n)
+		w := &ltWalker{fn: n, rows: rows, funcs: funcs, holds: map[string]int{}}
+		w.st = ltState{"unlocked", 0}
+		if !exported {
+			w.st = ltState{"unknown", 0}
+		}
+		w.path = []string{n + "@0"}
+		w.frames = []*ltFrame{{}}
+		w.stmts(funcs[n].Body.List)
 	}
 	var list []ltRow
 	for r := range rows {
@@ -475,13 +587,10 @@ func genLockTable() {
 		return fmt.Sprintf("%s\x00%s\x00%s\x00%s\x00%s\x00%03d", r.fn, r.field, r.rw, r.via, r.lock, r.hold)
 	}
 	sort.Slice(list, func(i, j int) bool { return key(list[i]) < key(list[j]) })
-	sort.Strings(assumed)
-	sort.Strings(fnames)
 	var b strings.Builder
 	b.WriteString("import Storrent.Model.LockTable\n")
 	b.WriteString("-- GENERATED by harness/cmd/extract (locktable.go) from tor/piece/piece.go; do not edit\n")
 	b.WriteString("namespace Storrent.Gen\nopen Storrent.LockTable\n")
-	b.WriteString("/-- functions documented \"Called locked\": analysed from wlock -/\n")
 	q := func(l []string) string {
 		var o []string
 		for _, s := range l {
@@ -489,8 +598,10 @@ func genLockTable() {
 		}
 		return "[" + strings.Join(o, ", ") + "]"
 	}
-	fmt.Fprintf(&b, "def lockAssumed : List String := %s\n", q(assumed))
-	fmt.Fprintf(&b, "def lockFunctions : List String := %s\n", q(fnames))
+	b.WriteString("/-- (kept for compatibility: helpers are spliced into their callers, nothing is assumed) -/\n")
+	fmt.Fprintf(&b, "def lockAssumed : List String := []\n")
+	b.WriteString("/-- the entry points described: the exported functions of the file -/\n")
+	fmt.Fprintf(&b, "def lockFunctions : List String := %s\n", q(entries))
 	b.WriteString("def lockTable : List Row := [\n")
 	for i, r := range list {
 		sep := ","
